@@ -22,6 +22,13 @@ type State struct {
 	ghost map[string]*Term
 	regs  map[ssa.Value]Value
 	gbase string // suffix for ghost variables not touched since the last total havoc
+	loops map[*ssa.BasicBlock]*loopEntry
+}
+
+type loopEntry struct {
+	pre  *State // state at loop entry (before havoc)
+	li   *loopInfo
+	decr []*Term
 }
 
 func (s *State) ghostSuffix() string {
@@ -39,12 +46,15 @@ func (x *FnCtx) setReg(st *State, v ssa.Value, val Value) {
 }
 
 func (s *State) Clone() *State {
-	n := &State{pc: s.pc, cells: make(map[*ssa.Alloc]Value, len(s.cells)), heap: s.heap.Clone(), ghost: map[string]*Term{}, regs: make(map[ssa.Value]Value, len(s.regs)), gbase: s.gbase}
+	n := &State{pc: s.pc, cells: make(map[*ssa.Alloc]Value, len(s.cells)), heap: s.heap.Clone(), ghost: map[string]*Term{}, regs: make(map[ssa.Value]Value, len(s.regs)), gbase: s.gbase, loops: map[*ssa.BasicBlock]*loopEntry{}}
 	for k, v := range s.cells {
 		n.cells[k] = v
 	}
 	for k, v := range s.regs {
 		n.regs[k] = v
+	}
+	for k, v := range s.loops {
+		n.loops[k] = v
 	}
 	for k, v := range s.ghost {
 		n.ghost[k] = v
@@ -232,7 +242,7 @@ func (x *FnCtx) val(fr *Frame, st *State, v ssa.Value) Value {
 	case *ssa.Const:
 		return x.constValue(vv)
 	case *ssa.Global:
-		return x.globalAddr(vv)
+		return x.globalAddr(vv, st)
 	case *ssa.Function:
 		return FuncV{Fn: vv}
 	case *ssa.Builtin:
@@ -306,12 +316,18 @@ func (x *FnCtx) toInt(t *Term) *Term {
 	return t
 }
 
-func (x *FnCtx) globalAddr(g *ssa.Global) Value {
+func (x *FnCtx) globalAddr(g *ssa.Global, st *State) Value {
 	et := g.Type().(*types.Pointer).Elem()
 	if isStruct(et) {
+		if !x.inInit {
+			x.immutableGlobal(g, et, st) // field facts of an initialised, never re-assigned struct variable
+		}
 		return x.globalRef(g)
 	}
 	if _, ok := et.Underlying().(*types.Array); ok {
+		if !x.inInit {
+			x.immutableGlobal(g, et, st) // emits the content facts of an initialised, never re-assigned table
+		}
 		return x.globalRef(g)
 	}
 	return LocV{Kind: LGlobal, G: g, T: et}
@@ -437,7 +453,7 @@ func (x *FnCtx) loadGlobal(st *State, g *ssa.Global, et types.Type) Value {
 		return x.tb.False()
 	}
 	if !x.inInit {
-		if v, ok := x.immutableGlobal(g, et); ok {
+		if v, ok := x.immutableGlobal(g, et, st); ok {
 			return v
 		}
 	}
@@ -853,9 +869,13 @@ func (x *FnCtx) mergeStates(es []edge) *State {
 	}
 	out := &State{pc: x.mergePC(pcs), cells: map[*ssa.Alloc]Value{}, ghost: map[string]*Term{}, regs: map[ssa.Value]Value{}}
 	out.heap = x.mergeHeaps(pcs, heaps)
+	out.loops = map[*ssa.BasicBlock]*loopEntry{}
 	for _, e := range es {
 		for k, v := range e.st.regs {
 			out.regs[k] = v
+		}
+		for k, v := range e.st.loops {
+			out.loops[k] = v
 		}
 	}
 	cellKeys := map[*ssa.Alloc]bool{}
@@ -944,13 +964,6 @@ func (x *FnCtx) run(fr *Frame, st0 *State) []retInfo {
 	in[fn.Blocks[0]] = []edge{{nil, st0}}
 	var rets []retInfo
 	x.assignSites(fr)
-	type loopEntry struct {
-		pre   *State // state at loop entry (before havoc)
-		li    *loopInfo
-		decr  []*Term
-		frame map[string]*Term
-	}
-	lentries := map[*ssa.BasicBlock]*loopEntry{}
 	retOrd := 0
 	split := fr.ctr != nil && fr.ctr.Split && fr.depth == 0
 	var process func(b *ssa.BasicBlock, st *State)
@@ -960,15 +973,18 @@ func (x *FnCtx) run(fr *Frame, st0 *State) []retInfo {
 		}
 		if li, ok := loops[b]; ok {
 			le := &loopEntry{li: li}
-			lentries[b] = le
 			st = x.enterLoop(fr, st, li, &le.pre, &le.decr)
+			if st.loops == nil {
+				st.loops = map[*ssa.BasicBlock]*loopEntry{}
+			}
+			st.loops[b] = le
 		}
 		goEdge := func(succ *ssa.BasicBlock, s *State) {
 			if s.pc.IsFalse() {
 				return
 			}
 			if be[[2]int{b.Index, succ.Index}] {
-				le := lentries[succ]
+				le := s.loops[succ]
 				if le != nil {
 					x.backEdge(fr, s, le.li, le.pre, le.decr)
 				}
